@@ -13,8 +13,9 @@ PROP = dict(
           "coordinate, bound C*eps*(S_j+|x_j|S_w)/|w|, cases with |w| < 1e-3*sum|terms of w| are skipped and counted. A case is counted as "
           "distinct non-trivial when at least one result has a non-zero term (for transposes: the matrix is not symmetric); distinctness is "
           "by a 64-bit hash of the operand bit patterns, capped by the framework (a lower bound)."),
-    assumptions=["operands are finite and well scaled (no overflow, no subnormal intermediate products): entries within 2^-40..2^40 for the vector "
-                 "products and transposes, 2^-18..2^18 for matrix products and determinants, 2^-8..2^8 for det(A*B)",
+    assumptions=["operands are finite and well scaled (no overflow, no subnormal intermediate products): entry magnitudes within about 2^-21..2^21 for the vector, "
+                 "quaternion and outer products, 2^-31..2^31 for transposes and traces, 2^-11..2^11 for matrix / vector-matrix products, minors and "
+                 "determinants, 2^-5..2^5 for det(A*B)",
                  "long double (64-bit significand) and libquadmath __float128 arithmetic are correct; they make the reference error negligible "
                  "(<= 2^-40 of the bound)",
                  "bit-for-bit agreement of spellings is observed for gcc -O2 and -O1 on x86-64 without FMA contraction; another compiler may "
